@@ -115,15 +115,27 @@ def h_partial(ctx, cfg):
 _WRAP_BODY = '    return fn(*args, **kwargs)'
 
 
+HOLDERS = ('function', 'bound-method', 'classmethod-on-instance', 'classmethod-on-class')
+
+
 def h_discovery(ctx, cfg):
     """partial(wrapper, callee) / partial(wrapper, fn=callee) where wrapper forwards to its parameter fn."""
     callee = U.gen_sigs(1, cfg['K'])[0]
     own = sym.pick(3, 'own')          # 0: no own parameter, 1: own pok before fn? no: after fn, 2: own kwo
     by_kw = sym.flip('bykw')
+    holders = cfg.get('holders', HOLDERS)
+    holder = holders[sym.pick(len(holders), 'holder')] if len(holders) > 1 else holders[0]
     with sym.notrace():
         deflist = {0: 'fn, *args, **kwargs', 1: 'fn, own, *args, **kwargs', 2: 'fn, *args, own, **kwargs'}[own]
-        ctx.case('partial(wrapper(%s), %scallee) callee=%r' % (deflist, 'fn=' if by_kw else '', callee), nontrivial=False)
-        wrapper = U.make_function(deflist, body=_WRAP_BODY, name='wrapper', cache_key=('c19w',))
+        ctx.case('partial(%s wrapper(%s), %scallee) callee=%r' % (holder, deflist, 'fn=' if by_kw else '', callee), nontrivial=False)
+        if holder == 'function':
+            wrapper = U.make_function(deflist, body=_WRAP_BODY, name='wrapper', cache_key=('c19w',))
+        else:
+            # the partial wraps a bound method / a classmethod read from an instance or from the class
+            raw = U.make_function(('self, ' if holder == 'bound-method' else 'cls, ') + deflist, body=_WRAP_BODY,
+                                  name='wrapper', cache_key=('c19w', holder))
+            klass = type('Holder', (object,), {'wrapper': raw if holder == 'bound-method' else classmethod(raw)})
+            wrapper = klass().wrapper if holder != 'classmethod-on-class' else klass.wrapper
         cfn = U.real_function(callee, 'callee')
         ci = callee.shape(real=cfn)
         o = Shape(pok=[('fn', False)] + ([('own', False)] if own == 1 else []), va='args',
@@ -171,7 +183,7 @@ def plan(tier):
                  bounds='functions with <=4 named parameters, 0..len+1 bound positionals, no bound keywords, nested or flat',
                  min_nontrivial=500),
             dict(name='discovery-K2', fn='h_discovery', depth=6, budget_s=120, cfg=dict(K=2),
-                 bounds='wrapper(fn, [own], *args, **kwargs) forwarding to fn, callee with <=2 named parameters, bound positionally / by keyword',
+                 bounds='wrapper(fn, [own], *args, **kwargs) forwarding to fn — a function, a bound method or a classmethod (read from instance / class) — callee with <=2 named parameters, bound positionally / by keyword',
                  min_nontrivial=100, must_reach=['discovery-sound', 'keyword-does-not-resolve']),
         ]
     return [
